@@ -385,6 +385,11 @@ class Analysis:
             return [(self.fresh(st, "?", False), st)]
         if k == "bin":
             op = e["op"]
+            if op == ",":
+                out = []
+                for _, s1 in self.eval(f, e["l"], st):
+                    out += self.eval(f, e["r"], s1)
+                return out
             if op in ("<", "<=", ">", ">=", "==", "!=", "&&", "||"):
                 t, fl = self.branch(f, e, st)
                 return [(lconst(1), s) for s in t] + [(lconst(0), s) for s in fl]
@@ -406,14 +411,19 @@ class Analysis:
                         else:
                             out.append((self.fresh(s2, "?", False), s2))
                 return out
-            if op == "+" and e.get("pd"):
-                # pointer + offset: keep the offset symbolic under the base's name
+            if op in ("+", "-") and e.get("pd"):
+                # pointer +/- offset, in elements
                 out = []
-                base = ir.render(e["l"])
-                for b, s2 in self.eval(f, e["r"], st):
-                    out.append((ladd(lvar("ptr:" + base), b), s2))
+                for a, s1 in self.eval(f, e["l"], st):
+                    for b, s2 in self.eval(f, e["r"], s1):
+                        out.append((ladd(a, b, 1 if op == "+" else -1), s2))
                 return out
             return [(self.fresh(st, "?", False), st)]
+        if k == "comma":
+            out = []
+            for _, s1 in self.eval(f, e["l"], st):
+                out += self.eval(f, e["r"], s1)
+            return out
         if k == "cond":
             out = []
             t, fl = self.branch(f, e["c"], st)
